@@ -114,6 +114,8 @@ impl ConnBuffer {
         }
 
         let size = left as usize * right as usize * 2;
+        // resize alone keeps the costs of a matrix that was read before
+        self.matrix.clear();
         self.matrix.resize(size, 0);
         self.num_left = left;
         self.num_right = right;
